@@ -73,16 +73,17 @@ EnvBase == [argvx |-> <<>>, envb |-> 0, envx |-> <<"none">>, penv |-> <<"P=1">>,
 ArgvXs == {<<>>, <<"a b">>, <<"", "q\"x", "b\\s", "k=v", " ", "-x">>, <<"a", "a", "a">>,
            <<"%FF%FE", "%C3(", "%E2%82%AC", "%09", "a%0Ab", "%7F", "%80x%25">>}
 EnvXs == {<<"none">>, <<>>, <<"A=1">>, <<"B=2", "A=3", "=x", "C", "A=1">>, <<"U=%FF%80", "%C3%A9=%0A">>}
-PEnvs == {<<>>, <<"P=1">>, <<"P=1", "Q=", "A=0">>, <<"P=%FE%09">>}
+PEnvs == {<<>>, <<"P=1">>, <<"P=1", "Q=", "A=0">>, <<"P=%FE%09">>, <<"NOEQUALS", "=LEADING", "P=1", "X==">>}   \* (entries a shell would not create are passed on too)
 Progs == {"/bin/c", "./c", "sub/c", "c", "sub//c"}
-Cwds == {"/w", "/"}
+Cwds == {"/w", "/", "/x"}    \* (under /x the relative programs do not exist: the start fails, whatever exists under the CHILD's directory)
 CwdLens == {0, 1, 4093, 4094, 4095, 4096, 4097, 8189, 8190, 8191, 8192, 8193, 4000, 5000}
 Masks == {<<>>, <<15>>, <<13, 17>>, <<1, 2, 3, 13, 14, 15, 17, 20, 34, 64>>}
 Disps == {<<>>, <<<<15, 1>>>>, <<<<2, 2>>, <<13, 1>>, <<17, 2>>>>}
 EnvPoints ==
   LET vary == {[EnvBase EXCEPT !.argvx = a] : a \in ArgvXs}
          \cup {[EnvBase EXCEPT !.envb = b, !.envx = x, !.penv = p] : b \in {0, 1}, x \in EnvXs, p \in PEnvs}
-         \cup {[EnvBase EXCEPT !.wd = w, !.prog = p, !.cwd = c] : w \in {"", "/d"}, p \in Progs, c \in Cwds}
+         \cup ({[EnvBase EXCEPT !.wd = w, !.prog = p, !.cwd = c] : w \in {"", "/d"}, p \in Progs, c \in Cwds}
+               \ {[EnvBase EXCEPT !.wd = "/d", !.prog = "./c", !.cwd = "/x"]})   \* (the simulated file system knows ".../\./c" under any directory, for the synthetic deep ones)
          \cup {[EnvBase EXCEPT !.wd = "/d", !.prog = p, !.cwdlen = l] : p \in {"./c", "/bin/c"}, l \in CwdLens}
          \cup {[EnvBase EXCEPT !.mask = ms, !.disp = d, !.wd = w] : ms \in Masks, d \in Disps, w \in {"", "/d"}}
          \cup {[EnvBase EXCEPT !.limit = -1, !.mask = ms] : ms \in {<<>>, <<15>>}}   \* no descriptor limit: start must refuse cleanly
@@ -108,7 +109,7 @@ FaultScenPoints ==
 \* environment, descriptor limit plus a new high descriptor; the second start must see the new state only
 Env2Points ==
   {Opt(<<U, U, U>>, NoSh, -1, FALSE, TRUE) @@ [x |-> [EnvBase EXCEPT !.wd = "/d", !.prog = p, !.cwd = c1, !.penv = e1], x2 |-> [cwd |-> c2, penv |-> e2, limit |-> l2, mask |-> sg[1], disp |-> sg[2], cl |-> sg[3]]] :
-     p \in {"./c", "sub/c", "/bin/c"}, c1 \in Cwds, c2 \in Cwds, e1 \in {<<"P=1">>, <<>>}, e2 \in {<<"P=2", "Q=3">>, <<>>}, l2 \in {32, 64},
+     p \in {"./c", "sub/c", "/bin/c"}, c1 \in {"/w", "/"}, c2 \in {"/w", "/"}, e1 \in {<<"P=1">>, <<>>}, e2 \in {<<"P=2", "Q=3">>, <<>>}, l2 \in {32, 64},
      sg \in {<< <<>>, <<>>, FALSE >>, << <<12>>, <<<<10, 1>>, <<15, 2>>>>, TRUE >>}}   \* ... its signal mask and dispositions, and whether it closes its stderr
 
 \* family "tables" (C13 b): the per-stream verdict for EVERY redirect value x shorthand combination x stream, exported as a table;
@@ -132,6 +133,7 @@ ExpProg == IF X.wd # "" /\ IsRel(X.prog) THEN Joined(X.cwd, X.prog) ELSE X.prog
 ExpProgLen == IF X.wd # "" /\ IsRel(X.prog) THEN (IF X.cwdlen = 1 THEN 1 ELSE X.cwdlen + 1) + Len(X.prog) ELSE Len(X.prog)
 ExpEnv == (IF X.envb = 0 THEN X.penv ELSE <<>>) \o (IF X.envx = <<"none">> THEN <<>> ELSE X.envx)
 ENAMETOOLONG == -36
+ENOENT == -2
 EMFILE == -24
 
 Init == phase = "pick" /\ o \in Points /\ k \in {[std |-> s, hasInput |-> FALSE] : s \in StdSets}
@@ -175,6 +177,9 @@ Expected ==
             common @@ [r |-> 1, cw |-> ChildWiring(v.eff, kk), cx |-> ChildExtra(v.eff), pp |-> ParentEnds(v.eff, kk.hasInput),
                        cnb |-> 0, cexec |-> 1, cmask |-> <<>>, cdisp |-> <<>>, pmask |-> X.mask, pdisp |-> X.disp, pcwd |-> X.cwd,
                        cargv |-> <<X.prog>> \o X.argvx, cenv |-> ExpEnv, cprog |-> ExpProg]
+       [] Family = "env" /\ X.cwd = "/x" /\ X.wd # "" /\ IsRel(X.prog) ->
+            \* the program named relative to the PARENT's directory does not exist (although one of that name exists elsewhere)
+            common @@ [r |-> ENOENT, nfd |-> BaseFds, left |-> 0, pmask |-> X.mask, pdisp |-> X.disp, pcwd |-> X.cwd]
        [] Family \in {"env", "env2"} ->
             common @@ [r |-> 1, left |-> 0, cexec |-> 1, cargv |-> <<X.prog>> \o X.argvx, cenv |-> ExpEnv,
                        pmask |-> X.mask, pdisp |-> X.disp, penv |-> X.penv, cmask |-> <<>>, cdisp |-> <<>>]
